@@ -579,11 +579,8 @@ def elementwise2(I, a, b, f):
     r = f(xa, xb)
     ek = 'bool' if numkind(r) == 'bool' else ('int' if numkind(r) == 'int' else 'real')
     if ek == 'bool':
-        body = zbool(r)
-        arr = z3.Lambda([k], z3.If(body, 1, 0))
-        out = I.st.alloc('slist', {'len': ln, 'arr': arr, 'ek': 'int'}, nd=True)
-        out.meta['bool'] = True
-        return out
+        arr = z3.Lambda([k], zbool(r))
+        return I.st.alloc('slist', {'len': ln, 'arr': arr, 'ek': 'bool'}, nd=True)
     arr = z3.Lambda([k], zint(r) if ek == 'int' else zreal(r))
     return I.st.alloc('slist', {'len': ln, 'arr': arr, 'ek': ek}, nd=True)
 
@@ -596,9 +593,7 @@ def elementwise1(I, a, f):
     r = f(SV(z3.Select(c['arr'], k), c['ek']))
     ek = 'int' if numkind(r) in ('int',) else 'real'
     if numkind(r) == 'bool':
-        out = I.st.alloc('slist', {'len': c['len'], 'arr': z3.Lambda([k], z3.If(zbool(r), 1, 0)), 'ek': 'int'}, nd=True)
-        out.meta['bool'] = True
-        return out
+        return I.st.alloc('slist', {'len': c['len'], 'arr': z3.Lambda([k], zbool(r)), 'ek': 'bool'}, nd=True)
     return I.st.alloc('slist', {'len': c['len'], 'arr': z3.Lambda([k], zint(r) if ek == 'int' else zreal(r)), 'ek': ek}, nd=True)
 
 
@@ -609,6 +604,8 @@ def fancy_index(I, obj, idx):
 # ===================================================================== arithmetic
 def _arith(I, op, a, b):
     ka, kb = numkind(a), numkind(b)
+    if isinstance(op, (ast.BitAnd, ast.BitOr)) and ka == 'bool' and kb == 'bool':
+        return I.land(a, b) if isinstance(op, ast.BitAnd) else I.lor(a, b)
     if ka is None or kb is None:
         raise Unsupported('arithmetic on %r, %r' % (a, b))
     if not isinstance(a, SV) and not isinstance(b, SV):
